@@ -87,7 +87,15 @@ def template_filter(a1: bool, a2: bool, b1: bool, b2: bool, c1: bool, c2: bool, 
     m = Model(logger=NULL_LOGGER)
     res = _population(m, n, [(a1, a2), (b1, b2), (c1, c2)], [0, 0, 0])
     tmpl = _template(w1, w2, w0, swap)
-    got = m.environment.get_agents(*tmpl)
+    if hx.P.get('alias'):
+        import warnings
+        warnings.simplefilter("ignore")
+        got = m.environment.getAgents(*tmpl)            # deprecated alias of get_agents
+        for a in res:
+            if a.hasComponent(*tmpl) != a.has_component(*tmpl):
+                return hx.end(hx.fail("hasComponent differs from has_component"))
+    else:
+        got = m.environment.get_agents(*tmpl)
     exp = []
     for a in res:
         ok = True
@@ -171,7 +179,12 @@ def random_pick(a1: bool, b1: bool, c1: bool, d1: bool, t0: int, t1: int, t2: in
         stranger.add_component(T1(stranger, m))
         other_env.add_agent(stranger)
     with _NoGlobalRandom():
-        got = m.environment.get_random_agent(*tmpl, **kw)
+        if hx.P.get('alias') and not use_tag:
+            import warnings
+            warnings.simplefilter("ignore")
+            got = m.environment.getRandomAgent(*tmpl)    # deprecated alias of get_random_agent
+        else:
+            got = m.environment.get_random_agent(*tmpl, **kw)
     if len(spec) == 0:
         hx.reach('none')
         if got is not None:
@@ -325,14 +338,14 @@ ASSUMPTIONS = ["populations are written directly into environment.agents (any in
 def obligations(tier):
     enc = (Environment.get_agents, Agent.has_component)
     return [
-        X("template_filter", template_filter, parts=[{"n": n} for n in (0, 2, 3)] + [{"n": 2, "nested": True}, {"n": 2, "api": True}],
+        X("template_filter", template_filter, parts=[{"n": n} for n in (0, 2, 3)] + [{"n": 2, "nested": True}, {"n": 2, "api": True}, {"n": 2, "alias": True}],
           labels=("proper_subset", "empty_template"),
           labels_for=lambda p: ("proper_subset", "empty_template") if p["n"] else ("empty_template",), timeout=600, encoded=enc,
           bounds={"agents": "0,2,3", "template": "any subset of {T1,T2,T0}, either order"}),
         X("tag_filter", tag_filter, parts=[{"n": n} for n in (1, 3)], labels=("tag_zero_filters", "tag_matches"), timeout=600,
           encoded=enc, bounds={"tags": "all ints incl. 0 and unregistered", "filter": "None or any int"}),
         X("random_pick", random_pick, parts=[{"n": n} for n in ((0, 2, 3) if tier == "quick" else (0, 1, 2, 3, 4))] +
-          [{"n": 2, "api": True}, {"n": 3, "api": True, "nested": True}, {"n": 2, "api": True, "second_env": True}],
+          [{"n": 2, "api": True}, {"n": 3, "api": True, "nested": True}, {"n": 2, "api": True, "second_env": True}, {"n": 2, "alias": True}],
           labels=("none", "last_member", "filtered_pick"),
           labels_for=lambda p: ("none",) if p["n"] == 0 else ("none", "last_member", "filtered_pick"), timeout=900,
           encoded=(Environment.get_random_agent, Environment.get_agents), bounds={"draw": "any int >= 0"}),
